@@ -11,7 +11,8 @@ import random
 
 from lib import common, gen, qscen, spec
 
-THEOREMS_TIED = ["C02_kv_scan_complete", "C02_kv_executePlan_complete", "C02_kv_no_duplicates", "C02_sql_complete_partial", "C02_sql_no_duplicates"]
+THEOREMS_TIED = ["C02_kv_scan_complete", "C02_kv_kinds_filter_complete", "C02_kv_authors_filter_complete", "C02_kv_kinds_complete_reachable",
+                 "C02_kv_authors_complete_reachable", "C02_kv_authorkinds_complete_reachable", "C02_kv_executePlan_complete", "C02_kv_no_duplicates", "C02_sql_complete_partial", "C02_sql_no_duplicates"]
 
 
 def is_prefix_ext(short, long_):
